@@ -181,6 +181,12 @@ def reader_refusals(t):
                         if first_refused > cap - 1: continue
                         r.bad(f"refusal|4|{errv}|{key[2]}|{key[3]}", site, f"the reader refuses ack packets with {first_refused} or more remaining ranges, but the sender emits up to {cap} ranges ({cap - 1} remaining): a full ack packet no longer decodes")
                         continue
+                    # an explicit guard on the packet type byte in front of the dispatch: refusing a tag above every tag the writer emits is the
+                    # catch-all arm spelled as a comparison
+                    if errv == "InvalidPacketType" and subj is not None and "get_u8" in fmt(subj) and isinstance(key[3], int) and key[2] in ("Gt", "Ge"):
+                        tags_w = [tg for tg, _ in codec.renet_packet_tables(t.F)[0].values() if tg is not None]
+                        first_refused = key[3] + 1 if key[2] == "Gt" else key[3]
+                        if tags_w and first_refused > max(tags_w): continue
                     r.bad(f"refusal|{arm}|{errv}|{key[2]}|{key[3]}", site, f"reader refusal not in the vetted table: arm {arm}, {errv} when value {key[2]} {key[3]} - the writer may emit such packets (round trip broken) unless shown otherwise")
     return r
 
